@@ -234,8 +234,8 @@ fn run_once(
     };
     let rr = sched::run(bodies, &mut wrapped, Duration::from_millis(job.hang_ms));
     for (gi, (t, w)) in rr.grants.iter().enumerate() {
-        if matches!(w, Want::Yield(_)) {
-            grants.push(json!([t + 1, "start", "y"]));
+        if let Want::Yield(tag) = w {
+            grants.push(json!([t + 1, if *tag == 77 { "clone" } else { "start" }, "y"]));
         } else {
             let a = w.addr();
             let n = names.get(&a).cloned().unwrap_or_else(|| {
